@@ -77,6 +77,11 @@ fn run_helper(n: usize, out: &mut impl Write) {
     writeln!(out, "helper n={} wrong={} early=[{}] dropped_at_teardown={}", n, wrong, early.join(";"), fin.split(',').filter(|x| !x.is_empty()).count()).unwrap();
 }
 
+/// the drop log in the order the values were released (a chain releases root first)
+fn take_drops_in_order() -> Vec<u64> {
+    std::mem::take(&mut *DROPS.lock().unwrap())
+}
+
 fn take_drops() -> String {
     let mut d = std::mem::take(&mut *DROPS.lock().unwrap());
     d.sort();
@@ -118,6 +123,7 @@ fn run_seq<L: Lender>(mut lender: L, ops: &[Vec<String>], out: &mut impl Write) 
 
 fn run_par<L: Lender>(lender: L, pre: u64, threads: usize, per: usize, out: &mut impl Write, cap: usize, mk: &dyn Fn() -> L) {
     let _ = lender;
+    let trace_schedules = std::env::var("CHAIN_TRACE").is_ok();
     let mut prefix: Option<Vec<usize>> = Some(vec![]);
     let mut count = 0;
     let mut bad: Option<String> = None;
@@ -155,7 +161,8 @@ fn run_par<L: Lender>(lender: L, pre: u64, threads: usize, per: usize, out: &mut
         addrs.sort(); addrs.dedup();
         drop(pre_refs);
         drop(l);
-        let fin = take_drops();
+        let fin_order = take_drops_in_order();
+        let fin = { let mut d = fin_order.clone(); d.sort(); d.iter().map(|x| x.to_string()).collect::<Vec<_>>().join(",") };
         all.sort();
         let mut expect: Vec<u64> = all.iter().map(|x| x.0).chain((0..pre).map(|s| 1000 + s)).collect();
         expect.sort();
@@ -165,6 +172,13 @@ fn run_par<L: Lender>(lender: L, pre: u64, threads: usize, per: usize, out: &mut
         if bad.is_none() && (!wrong.is_empty() || !pre_ok || addrs.len() != n_addrs || !early.is_empty() || fin != expect_s) {
             bad = Some(format!("picks={} wrong_reads={:?} earlier_refs_intact={} distinct={} dropped_before_teardown=[{}] dropped_at_teardown=[{}] expected=[{}]",
                 picks.join(","), wrong.iter().map(|x| (x.0, x.1)).collect::<Vec<_>>(), pre_ok, addrs.len() == n_addrs, early, fin, expect_s));
+        }
+        if trace_schedules {
+            // one line per schedule for the replay on the Lean race model: the chain order is the release order
+            let attempts: Vec<String> = g.tags.iter().map(|t| t.iter().filter(|x| **x == "try_insert").count().to_string()).collect();
+            let other: usize = g.tags.iter().map(|t| t.iter().filter(|x| **x != "try_insert").count()).sum();
+            writeln!(out, "rsched picks={} order={} attempts={} othertags={}", picks.join(","),
+                fin_order.iter().map(|x| x.to_string()).collect::<Vec<_>>().join(","), attempts.join(","), other).unwrap();
         }
         count += 1;
         prefix = sched::next_prefix(&g.trace);
